@@ -65,6 +65,7 @@ package plenccore
 //@   assigns nothing
 //@   ensures[C18,C04] -11 <= n && n <= 10 && n <= len(data)
 //@   ensures[C18,C04] 0 <= wt && wt <= 7
+//@   ensures[C18,C04] 0 <= index && index < (1 << 61)
 //@   ensures[C18] forall w uint8 :: forall i int :: validwt(w) && 0 <= i && i < (1 << 60) && len(data) >= vlen(tagval(w, i)) && at(data, 0, venc(tagval(w, i)), 10) \
 //@                   ==> uint8(wt) == w && index == i && n == vlen(tagval(w, i))
 //@   ensures[C18,C04] len(data) == 0 ==> n == 0
